@@ -249,8 +249,11 @@ class FullReport:
         states = [p for p in se.run(pre) if p.exit == "fall"]
         if len(states) != 1:
             raise AnalysisError(f"{fi.qualname}: set-up code before the row loop is not straight-line")
+        assigned = {n.id for st in loop.body for n in ast.walk(st) if isinstance(n, ast.Name) and isinstance(n.ctx, ast.Store)}
         for k, v in states[0].vars.items():
-            if k not in ("row_index",):
+            if k in assigned:
+                init.vars.setdefault(k, (("sym", k), v[1]))  # loop-carried: unknown value at the start of an arbitrary iteration
+            elif k not in ("row_index",):
                 init.vars.setdefault(k, v)
         init.vars["row_index"] = (("sym", "row_index"), ("prim", "int"))
         self._pre_state = states[0]
@@ -444,6 +447,28 @@ def run(rep: Report, tier: str) -> None:
     _check_running_sums(rep, fr)
     _check_float_sink(rep, fr)
     _check_legend(rep, fr)
+    # the window shown: the table writers iterate the filtered sets through EntrySetIterator, which must apply the window on the entry's own calendar date
+    from . import c10, c19
+
+    rw = rep.rule("C13.f", "rows shown are exactly the window's: the entry-set iterator applies both bounds on the entry's own calendar date", floor=2)
+    it = prog.func("rp2.abstract_entry_set", "EntrySetIterator.__next__")
+    comps = c10._window_comparisons(m, it)
+    for kind in ("to", "from"):
+        mine = [c for c in comps if c[2] == kind]
+        if not mine:
+            rep.violation(rw, it.module, it.qualname, f"iterator enforces the {kind}-date on the entry's calendar date", f"EntrySetIterator.__next__ contains no comparison of the entry's timestamp.date() with the {kind}-date: tables would show transactions outside the window or hide ones inside it", loc(it.node))
+        for c in mine:
+            c10._judge(rep, rw, m, it, c)
+    # numbers inside link formulas are the computed values, unformatted
+    rg = rep.rule("C13.g", "hyperlinked numeric cells carry the computed value unformatted inside the formula", floor=4)
+    saved = set(norm.opaque_funcs)
+    norm.opaque_funcs -= {HYPER_T, HYPER_S}
+    try:
+        c19._check_formula_builder(rep, rg, fr, prog.func(FR, "Generator.__get_hyperlinked_transaction_value"), "transaction")
+        c19._check_formula_builder(rep, rg, fr, prog.func(FR, "Generator.__get_hyperlinked_summary_value"), "summary")
+    finally:
+        norm.opaque_funcs.clear()
+        norm.opaque_funcs |= saved | {HYPER_T, HYPER_S}
 
 
 def _check_generate_asset(rep: Report, fr: FullReport, rule: str) -> None:
